@@ -244,10 +244,12 @@ def _block(draw, b, budget, depth, conditionals, force=None):
 
 
 @st.composite
-def job_graphs(draw, name, n_profiles, max_jobs=8, conditionals=True):
+def job_graphs(draw, name, n_profiles, max_jobs=8, conditionals=True, force=None):
     b = _B()
     budget = draw(st.integers(1, max_jobs))
-    if conditionals in ("heavy", "side") and draw(st.integers(0, 4)) > 0:
+    if force is not None:
+        draw(_block(b, max(3, budget), 0, conditionals, force=force))
+    elif conditionals in ("heavy", "side") and draw(st.integers(0, 4)) > 0:
         if max_jobs >= 9 and draw(st.integers(0, 3)) == 0:
             budget = max(budget, 9)  # room for two conditional regions in sequence
         draw(_block(b, max(4, budget), 0, conditionals, force="condchain"))
